@@ -96,7 +96,7 @@ type Macro struct {
 var clauseKeywords = map[string]bool{
 	"requires": true, "ensures": true, "modifies": true, "let": true, "ext": true, "loop": true,
 	"onwrite": true, "hint": true, "mode": true, "assume": true, "guards": true, "owns": true,
-	"invariant": true, "inline": true, "props": true, "by": true, "oncall": true, "atexit": true, "havoc": true, "assert": true, "locks": true, "premise": true, "witness": true, "purecalls": true, "oldlet": true, "builder": true, "dyntype": true, "inlinecalls": true, "sendinv": true, "recvinv": true, "summary": true, "use": true, "rely": true,
+	"invariant": true, "inline": true, "props": true, "by": true, "oncall": true, "atexit": true, "havoc": true, "assert": true, "locks": true, "premise": true, "witness": true, "purecalls": true, "oldlet": true, "builder": true, "dyntype": true, "inlinecalls": true, "sendinv": true, "recvinv": true, "summary": true, "use": true, "rely": true, "recorded": true, "beforecall": true, "returnsfresh": true,
 }
 var topKeywords = map[string]bool{
 	"func": true, "extfunc": true, "pure": true, "ghost": true, "monitor": true, "lemma": true,
@@ -316,7 +316,7 @@ func (c *Contracts) parseFile(pkgPath, file string) error {
 					return fmt.Errorf("%s: loop clause %q", d.src, w2)
 				}
 				cl.Expr = r3
-			case "onwrite", "oncall", "rely":
+			case "onwrite", "oncall", "rely", "beforecall":
 				k := strings.Index(rest, ":")
 				if k < 0 {
 					return fmt.Errorf("%s: expected field: assignments", d.src)
